@@ -7,6 +7,7 @@ pub fn gen_plan(prop: &str, seed: u64) -> Plan {
     match prop {
         "C14" => crate::expert::gen_plan(seed),
         "C15" | "C16" | "C17" => crate::mapeng::gen_plan(prop, seed),
+        "C19" => crate::limits::gen_plan(seed),
         _ => panic!("engine for {prop} not built yet"),
     }
 }
@@ -15,6 +16,7 @@ pub fn run_plan(plan: &Plan, keep: bool) -> RunOutput {
     match plan.engine.as_str() {
         "expert" => run_with(plan, keep, crate::expert::run_on_this_thread),
         "map" => run_with(plan, keep, crate::mapeng::run_on_this_thread),
+        "limits" => run_with(plan, keep, crate::limits::run_on_this_thread),
         e => panic!("engine {e} not built yet"),
     }
 }
